@@ -86,15 +86,7 @@ func (n NodeSet) String() string {
 	}
 
 	// The string-value of the node that is first in document order.
-	first := n[0]
-
-	for _, i := range n[1:] {
-		if i.Pos() < first.Pos() {
-			first = i
-		}
-	}
-
-	return GetCursorString(first)
+	return GetCursorString(firstInDocumentOrder(n))
 }
 
 func (n NodeSet) Number() float64 {
